@@ -36,6 +36,15 @@ def run(chk, repo):
     chk.doc("R19.4", "accessor closures (shared with C19)")
     c19.widths(chk, repo)
     c19.closures(chk, repo)
+    # what is on the wire for a serial terminal: the frame that is
+    # (re)sent carries the current handshake bits and string (shared with
+    # C30), and the channel's bytes lie inside its terminal's region
+    # (shared with C18)
+    from . import c30, c18
+    chk.doc("R30.3", "which frame is (re)sent (shared with C30)")
+    c30.sends(chk, repo)
+    chk.doc("R18.6", "allocation decoded independently (shared with C18)")
+    c18.allocation_semantic(chk, repo)
     chk.doc("R28.1", "one toggle per chunk, with the data")
     chk.doc("R28.2", "chunk fits the terminal's string and channel block")
     chk.doc("R28.3", "initialisation")
